@@ -1,3 +1,813 @@
-(* SpecSound2 — reserved for the proof agent owning this topic. *)
+(* SpecSound2 — consequences of SpecSound.select_char:
+   A. the preference order is a (partial) order; first-difference reading;
+   B. an exact static route always wins;
+   C. independence of the order of the candidates (registration order) under
+      the C02 no-conflict invariant;
+   D. lifting to select_in / select_tsr_in / spec_lookup. *)
 From FoxBase Require Import Bytes.
-From FoxRoute Require Import Node Lookup Spec Tree.
+From FoxRoute Require Import Spec SpecFacts SpecSound.
+Open Scope char_scope.
+Local Notation length := List.length.
+
+(* ------------------------------------------------------------------ *)
+(* A. the order                                                        *)
+(* ------------------------------------------------------------------ *)
+
+Lemma choice_lt_irrefl a : ~ choice_lt a a.
+Proof. destruct a; simpl; auto. lia. Qed.
+
+Lemma choice_lt_asym a b : choice_lt a b -> choice_lt b a -> False.
+Proof. destruct a, b; simpl; auto. lia. Qed.
+
+Lemma trace_le_cons_inv a l b m :
+  trace_le (a :: l) (b :: m) -> choice_lt a b \/ (a = b /\ trace_le l m).
+Proof. intros H; inversion H; subst; auto. Qed.
+
+Lemma trace_le_antisym l m : trace_le l m -> trace_le m l -> l = m.
+Proof.
+  induction 1 as [|a b l m Hab|a l m Hlm IH]; intros H2; [reflexivity| |];
+    apply trace_le_cons_inv in H2; destruct H2 as [Hba|[Hba H2]].
+  - destruct (choice_lt_asym _ _ Hab Hba).
+  - subst. destruct (choice_lt_irrefl _ Hab).
+  - destruct (choice_lt_irrefl _ Hba).
+  - f_equal. auto.
+Qed.
+
+(* at the first position where two traces differ, the smaller does the preferred thing *)
+Lemma trace_le_first_diff l a x b y :
+  trace_le (l ++ a :: x) (l ++ b :: y) -> a = b \/ choice_lt a b.
+Proof.
+  induction l as [|c l IH]; simpl; intros H; apply trace_le_cons_inv in H.
+  - destruct H as [H|[H _]]; auto.
+  - destruct H as [H|[_ H]]; auto. destruct (choice_lt_irrefl _ H).
+Qed.
+
+Theorem best_first_difference cs s h k vals k' vals' l a x b y :
+  Best cs s h k vals -> In k' cs -> Matches (toks k') s h vals' ->
+  trace (toks k) vals = l ++ a :: x -> trace (toks k') vals' = l ++ b :: y ->
+  a = b \/ choice_lt a b.
+Proof.
+  intros (_ & _ & Hmin) Hk' HM' E1 E2. specialize (Hmin k' vals' Hk' HM').
+  rewrite E1, E2 in Hmin. eapply trace_le_first_diff; eauto.
+Qed.
+
+(* (a): the selected match never uses a wildcard where, after the same choices so
+   far, another candidate's match uses a static byte *)
+Theorem wildcard_not_preferred_to_static cs s h k vals k' vals' l a x y :
+  Best cs s h k vals -> In k' cs -> Matches (toks k') s h vals' ->
+  trace (toks k) vals = l ++ a :: x -> trace (toks k') vals' = l ++ CStatic :: y ->
+  a = CStatic.
+Proof.
+  intros HB Hk' HM' E1 E2.
+  destruct (best_first_difference _ _ _ _ _ _ _ _ _ _ _ _ HB Hk' HM' E1 E2) as [->|Hlt]; auto.
+  destruct a; simpl in Hlt; contradiction.
+Qed.
+
+(* ------------------------------------------------------------------ *)
+(* B. an exact static route wins                                       *)
+(* ------------------------------------------------------------------ *)
+
+Definition all_static (n : nat) : list choice := repeat CStatic n.
+
+Lemma trace_le_all_static t n : trace_le t (all_static n) -> t = all_static n.
+Proof.
+  revert t. induction n as [|n IH]; intros t H.
+  - inversion H. reflexivity.
+  - change (all_static (S n)) with (CStatic :: all_static n) in *.
+    destruct t as [|a t]; [inversion H|]. apply trace_le_cons_inv in H.
+    destruct H as [H|[-> H]]; [destruct a; simpl in H; contradiction|].
+    f_equal. apply IH. exact H.
+Qed.
+
+Lemma trace_map_static s vals : trace (map TStatic s) vals = all_static (length s).
+Proof.
+  induction s as [|c s IH]; [reflexivity|].
+  change (CStatic :: trace (map TStatic s) vals = CStatic :: all_static (length s)).
+  f_equal. exact IH.
+Qed.
+
+Lemma Matches_all_static ts s h vals n :
+  Matches ts s h vals -> trace ts vals = all_static n -> ts = map TStatic s /\ vals = [].
+Proof.
+  intros HM. revert n. induction HM; intros m E.
+  - auto.
+  - destruct m; [discriminate|]. change (all_static (S m)) with (CStatic :: all_static m) in E.
+    rewrite trace_static in E. injection E as E.
+    destruct (IHHM _ E) as [-> ->]. auto.
+  - destruct m; discriminate.
+  - destruct m; discriminate.
+  - destruct m; discriminate.
+Qed.
+
+Theorem exact_static_wins fuel cs s h k' :
+  length s < fuel -> In k' cs -> toks k' = map TStatic s -> Matches (toks k') s h [] ->
+  exists k, In k cs /\ toks k = map TStatic s /\ select fuel cs s h [] = Some (pat k, []).
+Proof.
+  intros Hf Hk' Ht HM.
+  pose proof (Matches_h_le _ _ _ _ HM) as Hh.
+  destruct (select fuel cs s h []) as [[p vals]|] eqn:E.
+  2:{ exfalso. eapply select_complete; eauto. }
+  destruct (select_priority _ _ _ _ _ _ Hf Hh E) as (k & Hp & Hk & HMk & Hmin).
+  specialize (Hmin k' [] Hk' HM). rewrite Ht, trace_map_static in Hmin.
+  apply trace_le_all_static in Hmin.
+  destruct (Matches_all_static _ _ _ _ _ HMk Hmin) as [Htk ->].
+  exists k. subst p. auto.
+Qed.
+
+(* ------------------------------------------------------------------ *)
+(* C. independence of the order of the candidates                      *)
+(* ------------------------------------------------------------------ *)
+
+(* same kind of token, same static byte; wildcard names may differ *)
+Inductive tok_sim : token -> token -> Prop :=
+| sim_s c : tok_sim (TStatic c) (TStatic c)
+| sim_p n m : tok_sim (TParam n) (TParam m)
+| sim_c n m : tok_sim (TCatch n) (TCatch m).
+
+(* the C02 registration invariant, on candidates: no two candidates with the same
+   token list, and two candidates that share a token prefix agree on the name of
+   a wildcard that follows it *)
+Definition NoConflict (cs : list cand) : Prop :=
+  (forall k1 k2, In k1 cs -> In k2 cs -> toks k1 = toks k2 -> k1 = k2) /\
+  (forall k1 k2 pre w1 w2 r1 r2, In k1 cs -> In k2 cs ->
+     toks k1 = pre ++ w1 :: r1 -> toks k2 = pre ++ w2 :: r2 -> tok_sim w1 w2 -> w1 = w2).
+
+Lemma NoConflict_incl cs cs' : (forall k, In k cs' -> In k cs) -> NoConflict cs -> NoConflict cs'.
+Proof.
+  intros Hi [H1 H2]. split.
+  - intros k1 k2 Hk1 Hk2. apply H1; auto.
+  - intros k1 k2 pre w1 w2 r1 r2 Hk1 Hk2. apply (H2 k1 k2); auto.
+Qed.
+
+(* two matches of the same text with the same trace: same values, similar tokens *)
+Lemma same_trace_sim : forall ts1 ts2 s h v1 v2,
+  Matches ts1 s h v1 -> Matches ts2 s h v2 -> trace ts1 v1 = trace ts2 v2 ->
+  Forall2 tok_sim ts1 ts2 /\ v1 = v2.
+Proof.
+  induction ts1 as [|t1 ts1 IH]; intros ts2 s h v1 v2 M1 M2 E.
+  - inversion M1; subst. apply Matches_nil_inv in M2. destruct M2 as (-> & -> & _). auto.
+  - pose proof (Matches_cons_nonempty _ _ _ _ _ M1) as Hs.
+    apply Matches_inv in M1; [|exact Hs]. apply Matches_inv in M2; [|exact Hs].
+    destruct M1 as [(c1 & t1' & r1 & Ht1 & Hs1 & _ & _ & M1)
+                   |[(n1 & t1' & vals1 & Ht1 & Hv1 & _ & M1)
+                    |(n1 & t1' & j1 & vals1 & Ht1 & Hh1 & Hv1 & Hj1 & _ & M1)]];
+    destruct M2 as [(c2 & t2' & r2 & Ht2 & Hs2 & _ & _ & M2)
+                   |[(n2 & t2' & vals2 & Ht2 & Hv2 & _ & M2)
+                    |(n2 & t2' & j2 & vals2 & Ht2 & Hh2 & Hv2 & Hj2 & _ & M2)]];
+    injection Ht1 as -> ->; subst ts2; try subst v1; try subst v2;
+    rewrite ?trace_static, ?trace_param, ?trace_catch in E; try discriminate.
+    + rewrite Hs1 in Hs2. injection Hs2 as <- <-. injection E as E.
+      destruct (IH _ _ _ _ _ M1 M2 E) as [HF ->]. split; [constructor; [constructor|exact HF]|reflexivity].
+    + injection E as E.
+      destruct (IH _ _ _ _ _ M1 M2 E) as [HF ->]. split; [constructor; [constructor|exact HF]|reflexivity].
+    + injection E as Ej E. rewrite !firstn_length_le in Ej by lia. subst j2.
+      destruct (IH _ _ _ _ _ M1 M2 E) as [HF ->]. split; [constructor; [constructor|exact HF]|reflexivity].
+Qed.
+
+Lemma sim_eq ts1 ts2 :
+  Forall2 tok_sim ts1 ts2 ->
+  (forall pre w1 w2 r1 r2, ts1 = pre ++ w1 :: r1 -> ts2 = pre ++ w2 :: r2 -> tok_sim w1 w2 -> w1 = w2) ->
+  ts1 = ts2.
+Proof.
+  induction 1 as [|a b l1 l2 Hab HF IH]; intros Hc; [reflexivity|].
+  assert (a = b) by (apply (Hc [] a b l1 l2); auto). subst b. f_equal.
+  apply IH. intros pre w1 w2 r1 r2 -> -> Hw. apply (Hc (a :: pre) w1 w2 r1 r2); auto.
+Qed.
+
+(* (b): the answer depends only on the SET of candidates *)
+Theorem select_order_independent fuel1 fuel2 cs1 cs2 s h :
+  (forall k, In k cs1 <-> In k cs2) -> NoConflict cs1 ->
+  length s < fuel1 -> length s < fuel2 -> h <= length s ->
+  select fuel1 cs1 s h [] = select fuel2 cs2 s h [].
+Proof.
+  intros Hset [Huniq Hname] Hf1 Hf2 Hh.
+  pose proof (select_char fuel1 cs1 s h [] Hf1 Hh) as C1.
+  pose proof (select_char fuel2 cs2 s h [] Hf2 Hh) as C2.
+  destruct (select fuel1 cs1 s h []) as [[p1 vs1]|], (select fuel2 cs2 s h []) as [[p2 vs2]|];
+    cbn [sel_ok] in C1, C2.
+  - destruct C1 as (k1 & v1 & <- & -> & Hk1 & M1 & Hmin1).
+    destruct C2 as (k2 & v2 & <- & -> & Hk2 & M2 & Hmin2).
+    assert (E : trace (toks k1) v1 = trace (toks k2) v2).
+    { apply trace_le_antisym; [apply Hmin1|apply Hmin2]; auto; apply Hset; auto. }
+    destruct (same_trace_sim _ _ _ _ _ _ M1 M2 E) as [HF ->].
+    apply Hset in Hk2.
+    assert (toks k1 = toks k2) as Et.
+    { apply sim_eq; [exact HF|]. intros pre w1 w2 r1 r2. apply (Hname k1 k2); auto. }
+    rewrite (Huniq k1 k2 Hk1 Hk2 Et). reflexivity.
+  - destruct C1 as (k1 & v1 & _ & _ & Hk1 & M1 & _). destruct (C2 k1 v1); auto. apply Hset; auto.
+  - destruct C2 as (k2 & v2 & _ & _ & Hk2 & M2 & _). destruct (C1 k2 v2); auto. apply Hset; auto.
+  - reflexivity.
+Qed.
+
+(* a boolean check of NoConflict, for concrete route sets *)
+Definition token_eqb (a b : token) : bool :=
+  match a, b with
+  | TStatic c, TStatic d => Ascii.eqb c d
+  | TParam n, TParam m | TCatch n, TCatch m => bytes_eqb n m
+  | _, _ => false
+  end.
+Definition sim_b (a b : token) : bool :=
+  match a, b with
+  | TStatic c, TStatic d => Ascii.eqb c d
+  | TParam _, TParam _ | TCatch _, TCatch _ => true
+  | _, _ => false
+  end.
+Fixpoint compat (ts1 ts2 : list token) : bool :=
+  match ts1, ts2 with
+  | t1 :: r1, t2 :: r2 => if token_eqb t1 t2 then compat r1 r2 else negb (sim_b t1 t2)
+  | _, _ => true
+  end.
+Definition no_conflict_b (cs : list cand) : bool :=
+  forallb (fun k1 => forallb (fun k2 =>
+     compat (toks k1) (toks k2) &&
+     (negb (list_eqb token_eqb (toks k1) (toks k2)) || bytes_eqb (pat k1) (pat k2))) cs) cs.
+
+Lemma token_eqb_eq a b : token_eqb a b = true <-> a = b.
+Proof.
+  destruct a, b; simpl; try (split; [discriminate|congruence]).
+  - rewrite Ascii.eqb_eq. split; congruence.
+  - rewrite bytes_eqb_eq. split; congruence.
+  - rewrite bytes_eqb_eq. split; congruence.
+Qed.
+
+Lemma tokens_eqb_eq l m : list_eqb token_eqb l m = true <-> l = m.
+Proof.
+  revert m. induction l as [|a l IH]; intros [|b m]; simpl; try (split; [discriminate|congruence]).
+  - tauto.
+  - rewrite andb_true_iff, token_eqb_eq, IH. split; [intros [-> ->]; reflexivity|intros [= -> ->]; auto].
+Qed.
+
+Lemma sim_b_of_sim a b : tok_sim a b -> sim_b a b = true.
+Proof. destruct 1; simpl; auto. apply Ascii.eqb_refl. Qed.
+
+Lemma compat_ok pre : forall ts1 ts2 w1 w2 r1 r2,
+  compat ts1 ts2 = true -> ts1 = pre ++ w1 :: r1 -> ts2 = pre ++ w2 :: r2 -> tok_sim w1 w2 -> w1 = w2.
+Proof.
+  induction pre as [|a pre IH]; intros ts1 ts2 w1 w2 r1 r2 Hc -> -> Hs; simpl in Hc.
+  - destruct (token_eqb w1 w2) eqn:E; [apply token_eqb_eq; exact E|].
+    rewrite (sim_b_of_sim _ _ Hs) in Hc. discriminate.
+  - assert (token_eqb a a = true) as Ea by (apply token_eqb_eq; reflexivity).
+    rewrite Ea in Hc. eapply IH; eauto.
+Qed.
+
+Lemma no_conflict_b_ok cs : no_conflict_b cs = true -> NoConflict cs.
+Proof.
+  unfold no_conflict_b. rewrite forallb_forall. intros H. split.
+  - intros k1 k2 H1 H2 Et. specialize (H k1 H1). rewrite forallb_forall in H. specialize (H k2 H2).
+    apply andb_true_iff in H. destruct H as [_ H].
+    assert (list_eqb token_eqb (toks k1) (toks k2) = true) as E by (apply tokens_eqb_eq; exact Et).
+    rewrite E in H. simpl in H. apply bytes_eqb_eq in H.
+    destruct k1, k2; simpl in *; congruence.
+  - intros k1 k2 pre w1 w2 r1 r2 H1 H2 E1 E2 Hs. specialize (H k1 H1). rewrite forallb_forall in H.
+    specialize (H k2 H2). apply andb_true_iff in H. destruct H as [H _].
+    eapply compat_ok; eauto.
+Qed.
+
+(* ------------------------------------------------------------------ *)
+(* D. select_in, select_tsr_in, spec_lookup                            *)
+(* ------------------------------------------------------------------ *)
+
+(* hostname mode matches host ++ path with the first |host| bytes in the host;
+   path-only mode matches the path *)
+Definition mode_text (host path : bytes) (hm : bool) : bytes := if hm then host ++ path else path.
+Definition mode_h (host : bytes) (hm : bool) : nat := if hm then length host else 0.
+Definition in_mode (hm : bool) (p : bytes) : bool :=
+  if hm then negb (is_path_pattern p) else is_path_pattern p.
+
+(* a registered pattern of the given mode matches the request *)
+Definition DirectMatch (pats : list bytes) (host path : bytes) (hm : bool)
+  (p : bytes) (vals : list bytes) : Prop :=
+  In p pats /\ in_mode hm p = true /\ (hm = true -> host <> []) /\
+  Matches (tokenize p) (mode_text host path hm) (mode_h host hm) vals.
+
+Lemma select_in_eq pats host path hm :
+  (hm = true -> host <> []) ->
+  select_in pats host path hm =
+  select (spec_fuel host path) (map mk_cand (filter (in_mode hm) pats))
+         (mode_text host path hm) (mode_h host hm) [].
+Proof.
+  unfold select_in, mode_text, mode_h. destruct hm; [|reflexivity].
+  intros H. destruct host; [destruct (H eq_refl); reflexivity|reflexivity].
+Qed.
+
+Lemma select_in_nohost pats path : select_in pats [] path true = None.
+Proof. reflexivity. Qed.
+
+Lemma spec_fuel_ok host path hm : length (mode_text host path hm) < spec_fuel host path.
+Proof. unfold mode_text, spec_fuel. destruct hm; rewrite ?app_length; lia. Qed.
+
+Lemma mode_h_le host path hm : mode_h host hm <= length (mode_text host path hm).
+Proof. unfold mode_text, mode_h. destruct hm; rewrite ?app_length; lia. Qed.
+
+Lemma host_of_some pats host path hm x :
+  select_in pats host path hm = Some x -> hm = true -> host <> [].
+Proof. intros H -> ->. discriminate. Qed.
+
+Theorem select_in_sound pats host path hm p vals :
+  select_in pats host path hm = Some (p, vals) -> DirectMatch pats host path hm p vals.
+Proof.
+  intros H. pose proof (host_of_some _ _ _ _ _ H) as Hhost.
+  rewrite select_in_eq in H by exact Hhost.
+  apply select_sound_pats in H; [|apply mode_h_le].
+  destruct H as (Hin & HM & _). apply filter_In in Hin. destruct Hin as [Hin Hmode].
+  repeat split; auto.
+Qed.
+
+Theorem select_in_complete pats host path hm p vals :
+  DirectMatch pats host path hm p vals -> select_in pats host path hm <> None.
+Proof.
+  intros (Hin & Hmode & Hhost & HM). rewrite select_in_eq by exact Hhost.
+  apply (select_complete _ _ _ _ (mk_cand p) vals).
+  - apply in_map. apply filter_In. auto.
+  - exact HM.
+  - apply spec_fuel_ok.
+Qed.
+
+Definition NoDirect pats host path hm : Prop := forall p vals, ~ DirectMatch pats host path hm p vals.
+
+Theorem select_in_none_iff pats host path hm :
+  select_in pats host path hm = None <-> NoDirect pats host path hm.
+Proof.
+  split.
+  - intros E p vals HD. exact (select_in_complete _ _ _ _ _ _ HD E).
+  - intros HN. destruct (select_in pats host path hm) as [[p vals]|] eqn:E; [|reflexivity].
+    destruct (HN p vals (select_in_sound _ _ _ _ _ _ E)).
+Qed.
+
+Theorem select_in_priority pats host path hm p vals p' vals' :
+  select_in pats host path hm = Some (p, vals) -> DirectMatch pats host path hm p' vals' ->
+  trace_le (trace (tokenize p) vals) (trace (tokenize p') vals').
+Proof.
+  intros H (Hin & Hmode & Hhost & HM). rewrite select_in_eq in H by exact Hhost.
+  apply select_priority in H; [|apply spec_fuel_ok|apply mode_h_le].
+  destruct H as (k & <- & Hk & _ & Hmin). apply in_mk_cand in Hk. destruct Hk as [_ Ht].
+  rewrite <- Ht. apply (Hmin (mk_cand p') vals'); [|exact HM].
+  apply in_map. apply filter_In. auto.
+Qed.
+
+Theorem select_in_order_independent pats1 pats2 host path hm :
+  (forall p, In p pats1 <-> In p pats2) -> NoConflict (map mk_cand pats1) ->
+  select_in pats1 host path hm = select_in pats2 host path hm.
+Proof.
+  intros Hset HNC.
+  assert (Hcase : (hm = true /\ host = []) \/ (hm = true -> host <> [])).
+  { destruct hm; [|right; discriminate]. destruct host; [left; auto|right; discriminate]. }
+  destruct Hcase as [[-> ->]|Hhost]; [reflexivity|].
+  rewrite !select_in_eq by exact Hhost.
+  apply select_order_independent; try apply spec_fuel_ok; try apply mode_h_le.
+  - intros k. rewrite !in_map_iff. split; intros (p & <- & Hp); exists p; split; auto;
+      apply filter_In in Hp; apply filter_In; destruct Hp; split; auto; apply Hset; auto.
+  - eapply NoConflict_incl; [|exact HNC]. intros k. rewrite !in_map_iff.
+    intros (p & <- & Hp). exists p. apply filter_In in Hp. tauto.
+Qed.
+
+(* what a DirectMatch says, in the words of the property *)
+Lemma combine_fst_snd {A B} (l : list A) (m : list B) :
+  length l = length m -> map fst (combine l m) = l /\ map snd (combine l m) = m.
+Proof.
+  revert m. induction l as [|a l IH]; intros [|b m]; simpl; try discriminate; auto.
+  intros [= E]. destruct (IH m E) as [-> ->]. auto.
+Qed.
+
+Theorem DirectMatch_meaning pats host path hm p vals :
+  DirectMatch pats host path hm p vals ->
+  In p pats /\
+  map fst (name_values p vals) = wildcard_names (tokenize p) /\
+  map snd (name_values p vals) = vals /\
+  subst (tokenize p) vals = mode_text host path hm /\
+  (hm = false -> Forall2 path_val_ok (wilds (tokenize p)) vals) /\
+  (hm = true ->
+     exists ts1 ts2 v1 v2, tokenize p = ts1 ++ ts2 /\ vals = v1 ++ v2 /\
+       Matches ts1 host (length host) v1 /\ Matches ts2 path 0 v2 /\
+       no_catch ts1 /\ Forall host_val_ok v1 /\ Forall2 path_val_ok (wilds ts2) v2).
+Proof.
+  intros (Hin & Hmode & Hhost & HM). split; [exact Hin|].
+  pose proof (Matches_length _ _ _ _ HM) as Hlen.
+  destruct (combine_fst_snd (wildcard_names (tokenize p)) vals (eq_sym Hlen)) as [E1 E2].
+  split; [exact E1|]. split; [exact E2|]. split; [eapply Matches_subst; eauto|]. split.
+  - intros ->. apply Matches_path_values in HM. exact HM.
+  - intros ->. unfold mode_text, mode_h in HM. apply Matches_host_split in HM.
+    destruct HM as (ts1 & ts2 & v1 & v2 & Et & Ev & M1 & M2).
+    rewrite firstn_app_len in M1. rewrite skipn_app_len in M2.
+    exists ts1, ts2, v1, v2. split; [exact Et|]. split; [exact Ev|].
+    split; [exact M1|]. split; [exact M2|].
+    destruct (Matches_host_values _ _ _ _ M1 eq_refl) as [Hc Hv].
+    split; [exact Hc|]. split; [exact Hv|]. exact (Matches_path_values _ _ _ M2).
+Qed.
+
+(* ---- trailing slash ---- *)
+
+Definition TsrMatch (pats : list bytes) (host path : bytes) (hm : bool)
+  (p : bytes) (vals : list bytes) : Prop :=
+  2 <= length path /\
+  if ends_with_slash path then DirectMatch pats host (removelast path) hm p vals
+  else static_slash_end p = true /\ DirectMatch pats host (path ++ ["/"]) hm p vals.
+
+Definition NoTsr pats host path hm : Prop := forall p vals, ~ TsrMatch pats host path hm p vals.
+
+Lemma DirectMatch_filter f pats host path hm p vals :
+  DirectMatch (filter f pats) host path hm p vals <->
+  f p = true /\ DirectMatch pats host path hm p vals.
+Proof. unfold DirectMatch. rewrite filter_In. tauto. Qed.
+
+Lemma select_tsr_in_eq pats host path hm :
+  2 <= length path ->
+  select_tsr_in pats host path hm =
+  if ends_with_slash path then select_in pats host (removelast path) hm
+  else select_in (filter static_slash_end pats) host (path ++ ["/"]) hm.
+Proof.
+  intros H. unfold select_tsr_in. destruct path as [|a [|b r]]; simpl in H; try lia. reflexivity.
+Qed.
+
+Lemma select_tsr_in_short pats host path hm : length path < 2 -> select_tsr_in pats host path hm = None.
+Proof. destruct path as [|a [|b r]]; simpl; try lia; reflexivity. Qed.
+
+Theorem select_tsr_in_sound pats host path hm p vals :
+  select_tsr_in pats host path hm = Some (p, vals) -> TsrMatch pats host path hm p vals.
+Proof.
+  intros H. destruct (le_lt_dec 2 (length path)) as [Hl|Hl].
+  2:{ rewrite select_tsr_in_short in H by exact Hl. discriminate. }
+  rewrite select_tsr_in_eq in H by exact Hl. split; [exact Hl|].
+  destruct (ends_with_slash path); apply select_in_sound in H; [exact H|].
+  apply DirectMatch_filter in H. exact H.
+Qed.
+
+Theorem select_tsr_in_complete pats host path hm p vals :
+  TsrMatch pats host path hm p vals -> select_tsr_in pats host path hm <> None.
+Proof.
+  intros [Hl H]. rewrite select_tsr_in_eq by exact Hl.
+  destruct (ends_with_slash path).
+  - eapply select_in_complete; eauto.
+  - apply (select_in_complete _ _ _ _ p vals). apply DirectMatch_filter. exact H.
+Qed.
+
+Theorem select_tsr_in_none_iff pats host path hm :
+  select_tsr_in pats host path hm = None <-> NoTsr pats host path hm.
+Proof.
+  split.
+  - intros E p vals HD. exact (select_tsr_in_complete _ _ _ _ _ _ HD E).
+  - intros HN. destruct (select_tsr_in pats host path hm) as [[p vals]|] eqn:E; [|reflexivity].
+    destruct (HN p vals (select_tsr_in_sound _ _ _ _ _ _ E)).
+Qed.
+
+Theorem select_tsr_in_order_independent pats1 pats2 host path hm :
+  (forall p, In p pats1 <-> In p pats2) -> NoConflict (map mk_cand pats1) ->
+  select_tsr_in pats1 host path hm = select_tsr_in pats2 host path hm.
+Proof.
+  intros Hset HNC. destruct (le_lt_dec 2 (length path)) as [Hl|Hl].
+  2:{ rewrite !select_tsr_in_short by exact Hl. reflexivity. }
+  rewrite !select_tsr_in_eq by exact Hl. destruct (ends_with_slash path).
+  - apply select_in_order_independent; auto.
+  - apply select_in_order_independent.
+    + intros p. rewrite !filter_In, Hset. tauto.
+    + eapply NoConflict_incl; [|exact HNC]. intros k. rewrite !in_map_iff.
+      intros (p & <- & Hp). exists p. apply filter_In in Hp. tauto.
+Qed.
+
+(* the added slash is consumed by the literal '/' that ends the pattern: the
+   pattern without that '/' matches the request as it is *)
+Lemma Matches_snoc_static c : forall ts s' h vals,
+  Matches (ts ++ [TStatic c]) s' h vals ->
+  exists s, s' = s ++ [c] /\ (h <= length s -> Matches ts s h vals).
+Proof.
+  induction ts as [|t ts IH]; intros s' h vals M.
+  - simpl in M. inversion M; subst. inversion HM; subst.
+    exists []. split; [reflexivity|]. simpl. intros Hh. replace h with 0 by lia. constructor.
+  - simpl in M. inversion M; subst.
+    + destruct (IH _ _ _ HM) as (s1 & -> & H1). exists (c0 :: s1). split; [reflexivity|].
+      simpl. intros Hh. constructor; auto. apply H1. lia.
+    + destruct (IH _ _ _ HM) as (s1 & -> & H1). exists (v ++ s1). split; [apply app_assoc|].
+      intros _. constructor; auto; [|apply H1; lia].
+      destruct s1 as [|a s1]; [left; reflexivity|right].
+      destruct Hnx as [Hnx|(r & Hnx)]; [discriminate|]. injection Hnx as -> _. eexists; reflexivity.
+    + destruct (IH _ _ _ HM) as (s1 & -> & H1). exists (v ++ s1). split; [apply app_assoc|].
+      rewrite app_length. intros Hle. constructor; auto; [|apply H1; lia].
+      destruct Hnx as [Hnx|(r & Hnx)]; [left; exact Hnx|].
+      destruct s1 as [|a s1]; [left; simpl in Hle; lia|right].
+      injection Hnx as -> _. eexists; reflexivity.
+    + destruct (IH _ _ _ HM) as (s1 & -> & H1). exists (v ++ s1). split; [apply app_assoc|].
+      intros _. constructor; auto; [|apply H1; lia].
+      destruct s1 as [|a s1]; [left; reflexivity|right].
+      destruct Hnx as [Hnx|((r & Hnx) & Hl & Hd)]; [discriminate|]. injection Hnx as -> _.
+      split; [eexists; reflexivity|auto].
+Qed.
+
+Lemma static_slash_end_split p :
+  static_slash_end p = true -> exists ts, tokenize p = ts ++ [TStatic "/"].
+Proof.
+  unfold static_slash_end. destruct (rev (tokenize p)) as [|[c|n|n] l] eqn:E; try discriminate.
+  destruct (Ascii.eqb_spec c "/") as [->|Hd].
+  2:{ destruct c as [[] [] [] [] [] [] [] []]; try discriminate; contradiction Hd; reflexivity. }
+  intros _. exists (rev l). rewrite <- (rev_involutive (tokenize p)), E. reflexivity.
+Qed.
+
+Theorem tsr_added_slash_is_literal pats host path hm p vals :
+  TsrMatch pats host path hm p vals -> ends_with_slash path = false ->
+  exists ts, tokenize p = ts ++ [TStatic "/"] /\
+             Matches ts (mode_text host path hm) (mode_h host hm) vals.
+Proof.
+  intros [Hl H] Hs. rewrite Hs in H. destruct H as (Hsse & _ & _ & _ & HM).
+  destruct (static_slash_end_split p Hsse) as (ts & Et). exists ts. split; [exact Et|].
+  rewrite Et in HM. apply Matches_snoc_static in HM. destruct HM as (s & Es & HM).
+  assert (s = mode_text host path hm) as ->.
+  { unfold mode_text in *. destruct hm; [rewrite app_assoc in Es|]; apply app_inj_tail in Es; destruct Es as [<- _]; reflexivity. }
+  apply HM. apply mode_h_le.
+Qed.
+
+(* ---- the request-level specification ---- *)
+
+Lemma filter_nil_sub {A} (f : A -> bool) l l' :
+  (forall x, In x l' -> In x l) -> filter f l = [] -> filter f l' = [].
+Proof.
+  intros Hs E. destruct (filter f l') as [|a r] eqn:E'; [reflexivity|].
+  assert (In a (filter f l')) as H by (rewrite E'; left; reflexivity).
+  apply filter_In in H. destruct H as [H1 H2].
+  assert (In a (filter f l)) as H by (apply filter_In; auto). rewrite E in H. destruct H.
+Qed.
+
+Lemma no_host_mode pats host :
+  negb (is_nil (filter (fun p => negb (is_path_pattern p)) pats)) && negb (is_nil host) = false ->
+  forall pats' path, (forall p, In p pats' -> In p pats) -> select_in pats' host path true = None.
+Proof.
+  intros G pats' path Hs. apply andb_false_iff in G. destruct G as [G|G].
+  - unfold select_in. destruct host; [reflexivity|].
+    destruct (filter (fun p => negb (is_path_pattern p)) pats) eqn:E; [|discriminate].
+    rewrite (filter_nil_sub _ _ _ Hs E). apply select_nil.
+  - destruct host; [reflexivity|discriminate].
+Qed.
+
+(* spec_lookup is: the first of direct(host), tsr(host), direct(path-only), tsr(path-only) *)
+Theorem spec_lookup_eq pats host path :
+  spec_lookup pats host path =
+  match select_in pats host path true with Some x => mk_res false x | None =>
+  match select_tsr_in pats host path true with Some x => mk_res true x | None =>
+  match select_in pats host path false with Some x => mk_res false x | None =>
+  match select_tsr_in pats host path false with Some x => mk_res true x | None => SNone
+  end end end end.
+Proof.
+  unfold spec_lookup.
+  destruct (negb (is_nil (filter (fun p => negb (is_path_pattern p)) pats)) && negb (is_nil host)) eqn:G.
+  - destruct (select_in pats host path true); [reflexivity|].
+    destruct (select_tsr_in pats host path true); reflexivity.
+  - pose proof (no_host_mode _ _ G) as HN.
+    rewrite (HN pats path) by auto.
+    assert (select_tsr_in pats host path true = None) as ->; [|reflexivity].
+    destruct (le_lt_dec 2 (length path)) as [Hl|Hl]; [|apply select_tsr_in_short; exact Hl].
+    rewrite select_tsr_in_eq by exact Hl. destruct (ends_with_slash path); apply HN; auto.
+    intros p Hp. apply filter_In in Hp. tauto.
+Qed.
+
+Theorem spec_lookup_direct pats host path p ps :
+  spec_lookup pats host path = SDirect p ps ->
+  exists hm vals, ps = name_values p vals /\ DirectMatch pats host path hm p vals /\
+    (hm = false -> NoDirect pats host path true /\ NoTsr pats host path true).
+Proof.
+  rewrite spec_lookup_eq.
+  destruct (select_in pats host path true) as [[q vs]|] eqn:E1.
+  { simpl. intros [= -> <-]. exists true, vs. split; [reflexivity|].
+    split; [apply select_in_sound; exact E1|discriminate]. }
+  destruct (select_tsr_in pats host path true) as [[q vs]|] eqn:E2; [discriminate|].
+  destruct (select_in pats host path false) as [[q vs]|] eqn:E3.
+  { simpl. intros [= -> <-]. exists false, vs. split; [reflexivity|].
+    split; [apply select_in_sound; exact E3|]. intros _.
+    split; [apply select_in_none_iff; exact E1|apply select_tsr_in_none_iff; exact E2]. }
+  destruct (select_tsr_in pats host path false) as [[q vs]|]; discriminate.
+Qed.
+
+Theorem spec_lookup_tsr pats host path p ps :
+  spec_lookup pats host path = STsr p ps ->
+  exists hm vals, ps = name_values p vals /\ TsrMatch pats host path hm p vals /\
+    NoDirect pats host path hm /\
+    (hm = false -> NoDirect pats host path true /\ NoTsr pats host path true).
+Proof.
+  rewrite spec_lookup_eq.
+  destruct (select_in pats host path true) as [[q vs]|] eqn:E1; [discriminate|].
+  destruct (select_tsr_in pats host path true) as [[q vs]|] eqn:E2.
+  { simpl. intros [= -> <-]. exists true, vs. split; [reflexivity|].
+    split; [apply select_tsr_in_sound; exact E2|].
+    split; [apply select_in_none_iff; exact E1|discriminate]. }
+  destruct (select_in pats host path false) as [[q vs]|] eqn:E3; [discriminate|].
+  destruct (select_tsr_in pats host path false) as [[q vs]|] eqn:E4; [|discriminate].
+  simpl. intros [= -> <-]. exists false, vs. split; [reflexivity|].
+  split; [apply select_tsr_in_sound; exact E4|].
+  split; [apply select_in_none_iff; exact E3|]. intros _.
+  split; [apply select_in_none_iff; exact E1|apply select_tsr_in_none_iff; exact E2].
+Qed.
+
+Theorem spec_lookup_none_iff pats host path :
+  spec_lookup pats host path = SNone <->
+  forall hm, NoDirect pats host path hm /\ NoTsr pats host path hm.
+Proof.
+  rewrite spec_lookup_eq. split.
+  - destruct (select_in pats host path true) as [[q vs]|] eqn:E1; [discriminate|].
+    destruct (select_tsr_in pats host path true) as [[q vs]|] eqn:E2; [discriminate|].
+    destruct (select_in pats host path false) as [[q vs]|] eqn:E3; [discriminate|].
+    destruct (select_tsr_in pats host path false) as [[q vs]|] eqn:E4; [discriminate|].
+    intros _ [|]; split;
+      first [apply select_in_none_iff; assumption|apply select_tsr_in_none_iff; assumption].
+  - intros H.
+    rewrite (proj2 (select_in_none_iff pats host path true) (proj1 (H true))).
+    rewrite (proj2 (select_tsr_in_none_iff pats host path true) (proj2 (H true))).
+    rewrite (proj2 (select_in_none_iff pats host path false) (proj1 (H false))).
+    rewrite (proj2 (select_tsr_in_none_iff pats host path false) (proj2 (H false))).
+    reflexivity.
+Qed.
+
+(* hostname routes first: when a hostname pattern matches, the answer is a direct
+   hostname match (the best one) *)
+Theorem spec_lookup_hostname_first pats host path p vals :
+  DirectMatch pats host path true p vals ->
+  exists p' vals', spec_lookup pats host path = SDirect p' (name_values p' vals') /\
+                   DirectMatch pats host path true p' vals'.
+Proof.
+  intros HD. rewrite spec_lookup_eq.
+  destruct (select_in pats host path true) as [[q vs]|] eqn:E1.
+  - exists q, vs. split; [reflexivity|apply select_in_sound; exact E1].
+  - destruct (select_in_complete _ _ _ _ _ _ HD E1).
+Qed.
+
+(* path-only fallback: when nothing matches in hostname mode (directly or by a
+   trailing-slash action), a matching path-only pattern is served directly *)
+Theorem spec_lookup_fallback pats host path p vals :
+  NoDirect pats host path true -> NoTsr pats host path true ->
+  DirectMatch pats host path false p vals ->
+  exists p' vals', spec_lookup pats host path = SDirect p' (name_values p' vals') /\
+                   DirectMatch pats host path false p' vals'.
+Proof.
+  intros H1 H2 HD. rewrite spec_lookup_eq.
+  rewrite (proj2 (select_in_none_iff _ _ _ _) H1), (proj2 (select_tsr_in_none_iff _ _ _ _) H2).
+  destruct (select_in pats host path false) as [[q vs]|] eqn:E3.
+  - exists q, vs. split; [reflexivity|apply select_in_sound; exact E3].
+  - destruct (select_in_complete _ _ _ _ _ _ HD E3).
+Qed.
+
+Theorem spec_lookup_order_independent pats1 pats2 host path :
+  (forall p, In p pats1 <-> In p pats2) -> NoConflict (map mk_cand pats1) ->
+  spec_lookup pats1 host path = spec_lookup pats2 host path.
+Proof.
+  intros Hset HNC. rewrite !spec_lookup_eq.
+  rewrite !(select_in_order_independent pats1 pats2) by assumption.
+  rewrite !(select_tsr_in_order_independent pats1 pats2) by assumption.
+  reflexivity.
+Qed.
+
+(* ------------------------------------------------------------------ *)
+(* E. Non-vacuity: the hypotheses of the theorems above hold on concrete *)
+(*    route sets (README examples), and the conclusions are what the     *)
+(*    README says                                                        *)
+(* ------------------------------------------------------------------ *)
+
+Definition ex_fs : list bytes := map S2B ["/fs/avengers.txt"; "/fs/{filename}"; "/fs/*{filepath}"]%string.
+Definition ex_host : list bytes := map S2B ["{sub}.example.com/"; "/x"; "/foo/"; "/{v}"]%string.
+
+(* select_sound / select_sound_pats: README priority example, parameter *)
+Example select_sound_ex :
+  select 40 (map mk_cand ex_fs) (S2B "/fs/ironman.txt") 0 [] =
+    Some (S2B "/fs/{filename}", [S2B "ironman.txt"]) /\
+  Matches (tokenize (S2B "/fs/{filename}")) (S2B "/fs/ironman.txt") 0 [S2B "ironman.txt"].
+Proof.
+  assert (E : select 40 (map mk_cand ex_fs) (S2B "/fs/ironman.txt") 0 [] =
+              Some (S2B "/fs/{filename}", [S2B "ironman.txt"])) by (vm_compute; reflexivity).
+  split; [exact E|]. apply select_sound_pats in E; [tauto|simpl; lia].
+Qed.
+
+(* infix catch-all (README): the value spans several segments *)
+Example Matches_catch_ex :
+  Matches (tokenize (S2B "/assets/*{path}/thumbnail")) (S2B "/assets/photos/2021/thumbnail") 0
+          [S2B "photos/2021"].
+Proof.
+  assert (E : select 40 (map mk_cand [S2B "/assets/*{path}/thumbnail"])
+                (S2B "/assets/photos/2021/thumbnail") 0 [] =
+              Some (S2B "/assets/*{path}/thumbnail", [S2B "photos/2021"])) by (vm_compute; reflexivity).
+  apply select_sound_pats in E; [tauto|simpl; lia].
+Qed.
+
+(* hostname parameter: 13 host bytes, then the path *)
+Example Matches_host_ex :
+  Matches (tokenize (S2B "{sub}.example.com/")) (S2B "a.example.com/") 13 [S2B "a"].
+Proof.
+  assert (E : select 40 (map mk_cand [S2B "{sub}.example.com/"]) (S2B "a.example.com/") 13 [] =
+              Some (S2B "{sub}.example.com/", [S2B "a"])) by (vm_compute; reflexivity).
+  apply select_sound_pats in E; [tauto|simpl; lia].
+Qed.
+
+(* the corollaries on that match: one value per wildcard, subst reproduces the text,
+   the host part is matched as a whole *)
+Example Matches_meaning_ex :
+  length [S2B "a"] = length (wildcard_names (tokenize (S2B "{sub}.example.com/"))) /\
+  subst (tokenize (S2B "{sub}.example.com/")) [S2B "a"] = S2B "a.example.com/" /\
+  exists ts1 ts2 v1 v2, tokenize (S2B "{sub}.example.com/") = ts1 ++ ts2 /\ [S2B "a"] = v1 ++ v2 /\
+    Matches ts1 (S2B "a.example.com") 13 v1 /\ Matches ts2 (S2B "/") 0 v2.
+Proof.
+  pose proof Matches_host_ex as M. split; [exact (Matches_length _ _ _ _ M)|].
+  split; [exact (Matches_subst _ _ _ _ M)|].
+  destruct (Matches_host_split _ _ _ _ M) as (ts1 & ts2 & v1 & v2 & H). exists ts1, ts2, v1, v2. exact H.
+Qed.
+
+(* select_complete: its hypotheses are satisfiable (and then the answer is not None) *)
+Example select_complete_ex :
+  select 40 (map mk_cand ex_fs) (S2B "/fs/ironman.txt") 0 [] <> None.
+Proof.
+  apply (select_complete _ _ _ _ (mk_cand (S2B "/fs/{filename}")) [S2B "ironman.txt"]).
+  - vm_compute. tauto.
+  - exact (proj2 select_sound_ex).
+  - simpl; lia.
+Qed.
+
+(* select_none_iff: README "/avengers/{name}" does not match "/avengers/" *)
+Example select_none_ex :
+  NoMatch (map mk_cand [S2B "/avengers/{name}"]) (S2B "/avengers/") 0.
+Proof. apply (select_none_iff 40); [simpl; lia|simpl; lia|vm_compute; reflexivity]. Qed.
+
+(* select_priority: the catch-all is selected only because nothing better matches *)
+Example select_priority_ex :
+  exists k, pat k = S2B "/fs/*{filepath}" /\
+    Best (map mk_cand ex_fs) (S2B "/fs/avengers/ironman.txt") 0 k [S2B "avengers/ironman.txt"].
+Proof. apply (select_priority 40); [simpl; lia|simpl; lia|vm_compute; reflexivity]. Qed.
+
+(* exact_static_wins: the static route beats {filename} and *{filepath} *)
+Example exact_static_wins_ex :
+  exists k, In k (map mk_cand ex_fs) /\ toks k = map TStatic (S2B "/fs/avengers.txt") /\
+    select 40 (map mk_cand ex_fs) (S2B "/fs/avengers.txt") 0 [] = Some (pat k, []).
+Proof.
+  apply (exact_static_wins 40 _ _ _ (mk_cand (S2B "/fs/avengers.txt"))).
+  - simpl; lia.
+  - vm_compute. tauto.
+  - vm_compute. reflexivity.
+  - assert (E : select 40 (map mk_cand [S2B "/fs/avengers.txt"]) (S2B "/fs/avengers.txt") 0 [] =
+                Some (S2B "/fs/avengers.txt", [])) by (vm_compute; reflexivity).
+    apply select_sound_pats in E; [tauto|simpl; lia].
+Qed.
+
+(* order independence: the route set satisfies NoConflict, and reversing it changes nothing *)
+Example NoConflict_ex : NoConflict (map mk_cand ex_fs) /\ NoConflict (map mk_cand ex_host).
+Proof. split; apply no_conflict_b_ok; vm_compute; reflexivity. Qed.
+
+Example select_order_independent_ex :
+  select 40 (map mk_cand ex_fs) (S2B "/fs/ironman.txt") 0 [] =
+  select 30 (rev (map mk_cand ex_fs)) (S2B "/fs/ironman.txt") 0 [].
+Proof.
+  apply select_order_independent; try (simpl; lia).
+  - intros k. apply in_rev.
+  - exact (proj1 NoConflict_ex).
+Qed.
+
+(* ... and the no-conflict hypothesis is needed: /{a} and /{b} cannot both be registered;
+   if they were, the answer would depend on their order *)
+Example order_matters_without_NoConflict :
+  let cs := map mk_cand [S2B "/{a}"; S2B "/{b}"] in
+  select 10 cs (S2B "/v") 0 [] <> select 10 (rev cs) (S2B "/v") 0 [].
+Proof. vm_compute. congruence. Qed.
+
+(* request level: hostname first, path-only fallback, trailing slash *)
+Example spec_lookup_ex :
+  spec_lookup ex_host (S2B "a.example.com") (S2B "/") = SDirect (S2B "{sub}.example.com/") [(S2B "sub", S2B "a")] /\
+  spec_lookup ex_host (S2B "a.example.com") (S2B "/x") = SDirect (S2B "/x") [] /\
+  spec_lookup ex_host (S2B "a.example.com") (S2B "/foo") = SDirect (S2B "/{v}") [(S2B "v", S2B "foo")] /\
+  spec_lookup ex_host (S2B "") (S2B "/foo/bar") = SNone /\
+  spec_lookup ex_host (S2B "") (S2B "/x/") = STsr (S2B "/x") [] /\
+  spec_lookup (map S2B ["/foo/"; "/a/{v}/"]%string) (S2B "") (S2B "/a/b") = STsr (S2B "/a/{v}/") [(S2B "v", S2B "b")].
+Proof. repeat split; vm_compute; reflexivity. Qed.
+
+Example DirectMatch_ex :
+  DirectMatch ex_host (S2B "a.example.com") (S2B "/") true (S2B "{sub}.example.com/") [S2B "a"] /\
+  DirectMatch ex_host (S2B "a.example.com") (S2B "/x") false (S2B "/x") [] /\
+  NoDirect ex_host (S2B "a.example.com") (S2B "/x") true /\ NoTsr ex_host (S2B "a.example.com") (S2B "/x") true.
+Proof.
+  split; [apply select_in_sound; vm_compute; reflexivity|].
+  split; [apply select_in_sound; vm_compute; reflexivity|].
+  split; [apply select_in_none_iff|apply select_tsr_in_none_iff]; vm_compute; reflexivity.
+Qed.
+
+Example TsrMatch_ex :
+  TsrMatch (map S2B ["/foo/"; "/a/{v}/"]%string) (S2B "") (S2B "/a/b") false (S2B "/a/{v}/") [S2B "b"] /\
+  ends_with_slash (S2B "/a/b") = false /\
+  TsrMatch ex_host (S2B "") (S2B "/x/") false (S2B "/x") [].
+Proof.
+  split; [apply select_tsr_in_sound; vm_compute; reflexivity|].
+  split; [reflexivity|apply select_tsr_in_sound; vm_compute; reflexivity].
+Qed.
+
+(* the added slash only ever lands on a literal '/': /a/*{w} is not a trailing-slash
+   candidate for /a, although "/a/" ++ value would match for a non-empty value *)
+Example tsr_literal_ex :
+  spec_lookup [S2B "/a/*{w}"] (S2B "") (S2B "/a") = SNone /\
+  spec_lookup [S2B "/a{x}"] (S2B "") (S2B "/a") = SNone.
+Proof. split; vm_compute; reflexivity. Qed.
+
+Example spec_lookup_order_independent_ex :
+  spec_lookup ex_host (S2B "a.example.com") (S2B "/foo") =
+  spec_lookup (rev ex_host) (S2B "a.example.com") (S2B "/foo").
+Proof.
+  apply spec_lookup_order_independent; [intros p; apply in_rev|exact (proj2 NoConflict_ex)].
+Qed.
+
+(* select_sound needs h <= |s| (true of every call made by select_in: h = |host|,
+   s = host ++ path): with more "host bytes" than text, [select] still answers, but
+   the value is not a whole-host label *)
+Example select_sound_needs_h_le :
+  select 5 [mk_cand (S2B "{a}")] (S2B "x") 5 [] = Some (S2B "{a}", [S2B "x"]) /\
+  ~ Matches (tokenize (S2B "{a}")) (S2B "x") 5 [S2B "x"].
+Proof.
+  split; [vm_compute; reflexivity|]. intros M. apply Matches_h_le in M. simpl in M. lia.
+Qed.
